@@ -74,6 +74,8 @@ def _build(v, cls, ctx):
         if isinstance(v.key, str):
             return cls(v.key)
         raise ValueError("abstract zone (T, o) needs the transition catalogue")
+    if cls.__module__.startswith("pendulum.formatting") and not [k for k in v.f if not k.startswith("__")]:
+        return cls()   # stateless helper objects (Formatter, DifferenceFormatter)
     raise ValueError(f"cannot build native {cls.__name__}")
 
 
